@@ -431,6 +431,11 @@ class Check:
         diverged = []
         failing = []
         for s in scens:
+            if any(str(o).startswith("env-error") for o in (s.impl or [])):
+                # the host, not the code under test, failed (no free loopback port and the like, after retries):
+                # the scenario is inconclusive; it is counted in the evidence and judged neither way
+                self.extra["env_error_scenarios"] = self.extra.get("env_error_scenarios", 0) + 1
+                continue
             self.account(s)
             msgs = self.monitor(s)
             if msgs:
